@@ -118,7 +118,7 @@ def check(run):
     specs = []
     for i in range(8000 if thorough else 2500):
         specs.append(build(r, "E%d" % i, generics=r.choice([None, None, None, "T", "a", "N", "TU", "Tw", "aTw", "I", "aI", "Tdef", "TwU"])))
-    units = [shards.Unit("u_" + s.name.lower(), glue(s, r), meta={"enum_src": s.render()}, sig=s.signature()) for s in specs]
+    units = [shards.Unit("u_" + s.name.lower(), glue(s, r), meta={"enum_src": s.render(), "bare_src": s.render_bare()}, sig=s.signature()) for s in specs]
     run.rule = RULE
     samples = standard_flow(run, units, deps["std"], vmon, profiles=("debug",), tag="c15")
     pick_samples(run, samples, {u.name: u for u in units})
